@@ -228,4 +228,251 @@ theorem IInv.prepareOther {ok b n} (h : IInv ok b n) (s : EState) (st : String) 
             copy := fun e => by simp only []; rw [assocGet_assocSet_ne _ _ _ _ hst]; exact h.copy e }
   · exact { on := h.on, seq := h.seq, nd := h.nd, ndc := h.ndc, copy := h.copy }
 
+/-! ## any sequence of bundler operations -/
+
+/-- what can happen to one bundler between `open_run` and `close_run`, as far as sequence counters go -/
+inductive BOp where
+  | record (content : String)          -- record_interruption
+  | rewind                             -- RunBundler.rewind (resume / _start_suspender)
+  | resetCheckpoint                    -- reset_checkpoint_state
+  | clearCheckpoint                    -- clear_checkpoint
+  | emitOther (stream : String) (data : List (String × Int)) (commit : Bool)   -- save / monitor event
+  | prepareOther (stream : String) (objs : List String)                        -- a new descriptor
+
+def BOp.apply (p : EState × Bundler) : BOp → EState × Bundler
+  | .record c => recordInterruption p.1 p.2 c
+  | .rewind => (p.1, p.2.rewind)
+  | .resetCheckpoint => (p.1, p.2.resetCheckpoint)
+  | .clearCheckpoint => (p.1, { p.2 with seqCopy := [] })
+  | .emitOther st d cm => ((emitEvent p.1 p.2 st d).1, if cm then (emitEvent p.1 p.2 st d).2.commit st else (emitEvent p.1 p.2 st d).2)
+  | .prepareOther st o => prepareStream p.1 p.2 st o
+
+def runOps (p : EState × Bundler) (ops : List BOp) : EState × Bundler := ops.foldl BOp.apply p
+
+/-- `legal ok ops`: no other stream is called "interruptions", and a rewind never meets a checkpoint
+    copy that was cleared (or never written) and not re-written since (`ok` = the copy is current).
+    The engine only rewinds right after `record_interruption` (RE.resume, _start_suspender). -/
+def legal : Bool → List BOp → Prop
+  | _, [] => True
+  | ok, .rewind :: r => ok = true ∧ legal true r
+  | _, .clearCheckpoint :: r => legal false r
+  | _, .record _ :: r => legal true r
+  | _, .resetCheckpoint :: r => legal true r
+  | ok, .emitOther st _ _ :: r => st ≠ "interruptions" ∧ legal ok r
+  | ok, .prepareOther st _ :: r => st ≠ "interruptions" ∧ legal ok r
+
+def nRecords : List BOp → Nat
+  | [] => 0
+  | .record _ :: r => nRecords r + 1
+  | _ :: r => nRecords r
+
+/-- seq_nums of the interruption events of run `rid`, in document order -/
+def intSeqs (rid : Nat) (docs : List Doc) : List Nat :=
+  (docs.filter (fun d => d.kind == "event" && d.stream == "interruptions" && d.run == rid)).map (·.seq)
+
+theorem intSeqs_append (rid : Nat) (a b : List Doc) : intSeqs rid (a ++ b) = intSeqs rid a ++ intSeqs rid b := by
+  simp [intSeqs]
+
+theorem intSeqs_intEvent (b : Bundler) (c : String) : intSeqs b.runId [intEvent b c] = [b.counter "interruptions"] := by
+  simp [intSeqs, intEvent]
+
+theorem runId_recordInterruption (s : EState) (b : Bundler) (c : String) : (recordInterruption s b c).2.runId = b.runId := by
+  rw [recordInterruption_bundler]; unfold intBundler Bundler.commit
+  split
+  · split
+    · rfl
+    · split <;> rfl
+  · rfl
+
+theorem runId_apply (p : EState × Bundler) (op : BOp) : (op.apply p).2.runId = p.2.runId := by
+  cases op with
+  | record c => exact runId_recordInterruption _ _ _
+  | rewind => rfl
+  | resetCheckpoint => rfl
+  | clearCheckpoint => rfl
+  | emitOther st d cm =>
+    simp only [BOp.apply]
+    split
+    · unfold Bundler.commit; split
+      · rfl
+      · split <;> rfl
+    · rfl
+  | prepareOther st o =>
+    simp only [BOp.apply, prepareStream]; split <;> rfl
+
+/-- one operation: the invariant is kept, a `record` hands out the next number, nothing else emits
+    into the stream -/
+theorem apply_step (p : EState × Bundler) (op : BOp) (ok : Bool) (n : Nat) (r : List BOp)
+    (h : IInv ok p.2 n) (hl : legal ok (op :: r)) :
+    ∃ ok', IInv ok' (op.apply p).2 (n + nRecords [op]) ∧ legal ok' r ∧
+      intSeqs p.2.runId (op.apply p).1.docs = intSeqs p.2.runId p.1.docs ++ List.range' (n + 1) (nRecords [op]) := by
+  cases op with
+  | record c =>
+    refine ⟨true, ?_, hl, ?_⟩
+    · simp only [BOp.apply, recordInterruption_bundler, nRecords]; exact h.record
+    · simp only [BOp.apply, recordInterruption_docs, intDocs, h.on, if_true, intSeqs_append, intSeqs_intEvent, h.counter,
+        nRecords]
+      rfl
+  | rewind =>
+    obtain ⟨hok, hl⟩ := hl
+    subst hok
+    exact ⟨true, by simpa [BOp.apply, nRecords] using h.rewind, hl, by simp [BOp.apply, nRecords]⟩
+  | resetCheckpoint =>
+    exact ⟨true, by simpa [BOp.apply, nRecords] using h.resetCheckpoint, hl, by simp [BOp.apply, nRecords]⟩
+  | clearCheckpoint =>
+    exact ⟨false, by simpa [BOp.apply, nRecords] using h.clearCheckpoint, hl, by simp [BOp.apply, nRecords]⟩
+  | emitOther st d cm =>
+    obtain ⟨hst, hl⟩ := hl
+    refine ⟨ok, ?_, hl, ?_⟩
+    · simp only [BOp.apply, nRecords, Nat.add_zero]
+      split
+      · exact (h.emitOther p.1 st d hst).commitOther st hst
+      · exact h.emitOther p.1 st d hst
+    · have hne : (st == "interruptions") = false := by simpa using hst
+      simp [BOp.apply, nRecords, emitEvent, intSeqs, hne]
+  | prepareOther st o =>
+    obtain ⟨hst, hl⟩ := hl
+    refine ⟨ok, by simpa [BOp.apply, nRecords] using h.prepareOther p.1 st o hst, hl, ?_⟩
+    simp only [BOp.apply, prepareStream, nRecords, List.range'_zero, List.append_nil]
+    simp [intSeqs]
+
+theorem nRecords_cons (op : BOp) (r : List BOp) : nRecords (op :: r) = nRecords [op] + nRecords r := by
+  cases op <;> simp [nRecords] <;> omega
+
+theorem runOps_spec (ops : List BOp) (p : EState × Bundler) (ok : Bool) (n : Nat)
+    (h : IInv ok p.2 n) (hl : legal ok ops) :
+    (runOps p ops).2.runId = p.2.runId ∧
+    (∃ ok', IInv ok' (runOps p ops).2 (n + nRecords ops)) ∧
+    intSeqs p.2.runId (runOps p ops).1.docs = intSeqs p.2.runId p.1.docs ++ List.range' (n + 1) (nRecords ops) := by
+  induction ops generalizing p ok n with
+  | nil => exact ⟨rfl, ⟨ok, by simpa [nRecords, runOps] using h⟩, by simp [runOps, nRecords]⟩
+  | cons op r ih =>
+    obtain ⟨ok', hinv, hl', hseq⟩ := apply_step p op ok n r h hl
+    have := ih (op.apply p) ok' (n + nRecords [op]) hinv hl'
+    have hid := runId_apply p op
+    simp only [runOps, List.foldl_cons] at this ⊢
+    rw [hid] at this
+    refine ⟨this.1, ?_, ?_⟩
+    · obtain ⟨ok'', h''⟩ := this.2.1
+      exact ⟨ok'', by rw [nRecords_cons op r, ← Nat.add_assoc]; exact h''⟩
+    · rw [this.2.2, hseq, nRecords_cons op r, List.append_assoc]
+      congr 1
+      rw [Nat.add_right_comm n _ 1]
+      exact List.range'_append_1 (s := n + 1) (m := nRecords [op]) (n := nRecords r)
+
+/-! ## recording disabled: the stream never comes into being -/
+
+structure NoStream (b : Bundler) : Prop where
+  off : b.recordInt = false
+  seq : "interruptions" ∉ keys b.seq
+  copy : "interruptions" ∉ keys b.seqCopy
+  desc : "interruptions" ∉ keys b.descriptors
+
+def BOp.nameOk : BOp → Prop
+  | .emitOther st _ _ => st ≠ "interruptions"
+  | .prepareOther st _ => st ≠ "interruptions"
+  | _ => True
+
+theorem rewind_fix_keys (k : String) (ds : List (String × List String)) (a c : List (String × Nat))
+    (ha : k ∉ keys a) (hc : k ∉ keys c) (hd : k ∉ keys ds) :
+    let r := ds.foldl (fun (acc : List (String × Nat) × List (String × Nat)) (kd : String × List String) =>
+      if (assocGet kd.1 acc.1).isNone then (assocSet kd.1 1 acc.1, assocSet kd.1 1 acc.2) else acc) (a, c)
+    k ∉ keys r.1 ∧ k ∉ keys r.2 := by
+  induction ds generalizing a c with
+  | nil => exact ⟨ha, hc⟩
+  | cons kd ds ih =>
+    simp only [keys, List.map_cons, List.mem_cons, not_or] at hd
+    simp only [List.foldl_cons]
+    split
+    · apply ih
+      · intro h; rcases (mem_keys_assocSet _ _ _ _).mp h with h | h
+        · exact hd.1 h
+        · exact ha h
+      · intro h; rcases (mem_keys_assocSet _ _ _ _).mp h with h | h
+        · exact hd.1 h
+        · exact hc h
+      · exact hd.2
+    · exact ih _ _ ha hc hd.2
+
+theorem NoStream.apply {p : EState × Bundler} (h : NoStream p.2) (op : BOp) (hn : op.nameOk) :
+    NoStream (op.apply p).2 ∧ ∀ rid, intSeqs rid (op.apply p).1.docs = intSeqs rid p.1.docs := by
+  cases op with
+  | record c =>
+    simp only [BOp.apply, recordInterruption, h.off]
+    exact ⟨h, fun _ => rfl⟩
+  | rewind =>
+    have := rewind_fix_keys "interruptions" p.2.descriptors p.2.seqCopy p.2.seqCopy h.copy h.copy h.desc
+    exact ⟨{ off := h.off, seq := this.1, copy := this.2, desc := h.desc }, fun _ => rfl⟩
+  | resetCheckpoint =>
+    refine ⟨{ off := h.off, seq := h.seq, copy := ?_, desc := h.desc }, fun _ => rfl⟩
+    simp only [BOp.apply, resetCheckpoint_seqCopy]
+    intro hm; rcases mem_keys_overlay _ _ _ hm with hm | hm
+    · exact h.seq hm
+    · exact h.copy hm
+  | clearCheckpoint =>
+    exact ⟨{ off := h.off, seq := h.seq, copy := by simp [BOp.apply, keys], desc := h.desc }, fun _ => rfl⟩
+  | emitOther st d cm =>
+    have hst : st ≠ "interruptions" := hn
+    have hne : (st == "interruptions") = false := by simpa using hst
+    have hseq : "interruptions" ∉ keys (emitEvent p.1 p.2 st d).2.seq := by
+      simp only [emitEvent]; intro hm
+      rcases (mem_keys_assocSet _ _ _ _).mp hm with hm | hm
+      · exact hst hm.symm
+      · exact h.seq hm
+    refine ⟨?_, fun rid => by simp [BOp.apply, emitEvent, intSeqs, hne]⟩
+    simp only [BOp.apply]
+    split
+    · unfold Bundler.commit
+      split
+      · exact { off := h.off, seq := hseq, copy := h.copy, desc := h.desc }
+      · split
+        · refine { off := h.off, seq := hseq, copy := ?_, desc := h.desc }
+          simp only []; intro hm
+          rcases (mem_keys_assocSet _ _ _ _).mp hm with hm | hm
+          · exact hst hm.symm
+          · exact h.copy hm
+        · exact { off := h.off, seq := hseq, copy := h.copy, desc := h.desc }
+    · exact { off := h.off, seq := hseq, copy := h.copy, desc := h.desc }
+  | prepareOther st o =>
+    have hst : st ≠ "interruptions" := hn
+    have hdesc : "interruptions" ∉ keys (assocSet st o p.2.descriptors) := by
+      intro hm; rcases (mem_keys_assocSet _ _ _ _).mp hm with hm | hm
+      · exact hst hm.symm
+      · exact h.desc hm
+    refine ⟨?_, fun rid => by simp [BOp.apply, prepareStream, intSeqs]⟩
+    simp only [BOp.apply, prepareStream]
+    split
+    · refine { off := h.off, seq := ?_, copy := ?_, desc := hdesc }
+      · simp only []; intro hm; rcases (mem_keys_assocSet _ _ _ _).mp hm with hm | hm
+        · exact hst hm.symm
+        · exact h.seq hm
+      · simp only []; intro hm; rcases (mem_keys_assocSet _ _ _ _).mp hm with hm | hm
+        · exact hst hm.symm
+        · exact h.copy hm
+    · exact { off := h.off, seq := h.seq, copy := h.copy, desc := hdesc }
+
+theorem NoStream.runOps (ops : List BOp) (p : EState × Bundler) (h : NoStream p.2) (hn : ∀ op ∈ ops, op.nameOk) :
+    NoStream (runOps p ops).2 ∧ ∀ rid, intSeqs rid (runOps p ops).1.docs = intSeqs rid p.1.docs := by
+  induction ops generalizing p with
+  | nil => exact ⟨h, fun _ => rfl⟩
+  | cons op r ih =>
+    have h1 := h.apply op (hn op (by simp))
+    have h2 := ih (op.apply p) h1.1 (fun o ho => hn o (by simp [ho]))
+    simp only [Engine.runOps, List.foldl_cons] at h2 ⊢
+    exact ⟨h2.1, fun rid => by rw [h2.2 rid, h1.2 rid]⟩
+
+/-! ## close_run -/
+
+@[simp] theorem docs_suspendMonitors (s : EState) (b : Bundler) : (suspendMonitors s b).1.docs = s.docs := by
+  unfold suspendMonitors; apply docs_foldl; intro s x; rfl
+
+/-- the RunStop document written for bundler `b` -/
+def stopDoc (b : Bundler) (exit reason : String) : Doc :=
+  { kind := "stop", run := b.runId, exit := exit, reason := reason, numEvents := b.seq.map (fun kv => (kv.1, kv.2 - 1)) }
+
+theorem closeRunDoc_docs (s : EState) (b : Bundler) (e r : String) :
+    (closeRunDoc s b e r).1.docs = s.docs ++ [stopDoc b e r] := by
+  simp [closeRunDoc, clearMonitors, stopDoc]
+  exact ⟨rfl, rfl⟩
+
 end BlueskyVerif.Engine
